@@ -27,6 +27,11 @@ def run(ctx):
     extra = ([] if q else ["--full"]) + laws1(ctx)
     ctx.harness("roll-bfs", binp, ["replay-roll1", "--kernels", FEAT, "--in", r1["emitted"]] + extra)
     ctx.harness("roll-sim", binp, ["replay-roll1", "--kernels", FEAT, "--in", r2["emitted"]] + extra)
+    # long windows (215 .. 260, thorough .. 400) on arithmetic progressions: closed forms of every definition
+    # (LineLawOK checks closed form = definition within a bound), emitted as ordinary roll1 cases
+    ctx.tlc("line-law", "MCLongLine", "MCLongLine_law.cfg", workers=4, timeout=900, emit=False)
+    rl = ctx.tlc("long-line", "MCLongLine", "MCLongLine_quick.cfg" if q else "MCLongLine_thorough.cfg", workers=4, timeout=900)
+    ctx.harness("long-line", binp, ["replay-roll1", "--kernels", FEAT, "--in", rl["emitted"]] + extra)
     n = 2 if q else 10
     for i in range(n):
         runs, steps = (3, 250) if q else (4, 1500)
